@@ -2,6 +2,7 @@
 From mathcomp Require Import all_ssreflect all_algebra.
 From SsrMultinomials Require Import mpoly.
 From NP Require Import Base Poly Abs Order OrderP MonomialP GenSort BridgeSort.
+From NP Require Import GridComplete.
 Set Implicit Arguments. Unset Strict Implicit. Unset Printing Implicit Defensive.
 
 (* the model's glexsort is the library's only if the degree pass is stable: read from the source *)
@@ -47,6 +48,31 @@ have [sz al] := glexindex_raw_box tin.
 by split=> //; apply: glexindex_raw_test.
 Qed.
 
+(* COMPLETENESS (integer norms 0, p >= 1, inf): every tuple of the right length inside the box [0, max stop) that passes
+   the final test is generated - the truncation applied after each dimension of the step-wise construction never
+   removes a suffix of such a tuple.  With C18_glexindex_members: glexindex returns EXACTLY these tuples. *)
+Theorem C18_glexindex_complete nm0 nm1 start stop g r t :
+  (if nm1 is NP p then 0 < p else true) ->
+  size start = size stop -> size t = size start -> all (fun x => x < maxs stop) t ->
+  (if size start == 1 then (nth 0 start 0 <= nth 0 t 0) && (nth 0 t 0 < maxs stop)
+   else cross_truncate nm1 t stop && ~~ cross_truncate nm0 t start) ->
+  t \in glexindex nm0 nm1 start stop g r.
+Proof.
+move=> pp ss st al test; rewrite (perm_mem (glexindex_perm nm0 nm1 start stop g r)).
+exact: glexindex_raw_complete.
+Qed.
+
+Theorem C18_glexindex_exactly nm0 nm1 start stop g r t :
+  (if nm1 is NP p then 0 < p else true) -> size start = size stop ->
+  (t \in glexindex nm0 nm1 start stop g r) =
+  [&& size t == size start, all (fun x => x < maxs stop) t &
+      if size start == 1 then (nth 0 start 0 <= nth 0 t 0) && (nth 0 t 0 < maxs stop)
+      else cross_truncate nm1 t stop && ~~ cross_truncate nm0 t start].
+Proof.
+move=> pp ss; apply/idP/and3P => [tin|[/eqP st al test]]; last exact: C18_glexindex_complete.
+by have [-> -> ->] := C18_glexindex_members tin.
+Qed.
+
 Theorem C18_bindex nm0 nm1 start stop hasG hasR hasI :
   bindex nm0 nm1 start stop hasG hasR hasI =
   (if hasI then rev else id) (glexindex nm0 nm1 start stop hasG (~~ hasR)).
@@ -72,3 +98,5 @@ Print Assumptions C18_glexindex_sorted.
 Print Assumptions C18_glexindex_members.
 Print Assumptions C18_bindex.
 Print Assumptions C18_monomial.
+Print Assumptions C18_glexindex_complete.
+Print Assumptions C18_glexindex_exactly.
